@@ -935,6 +935,10 @@ impl Property for P16 {
         S16::Single(generate_single(r, tier))
     }
 
+    fn probes() -> Vec<usize> {
+        vec![pb::cancel_of_sync, pb::resume_with_offset_lt_4, pb::resume_with_offset_ge_4, pb::frame_len_eq_max_len, pb::frame_len_eq_max_len_plus_1, pb::write_zero_mid_frame, pb::double_cancel_same_frame, pb::idle_sync, pb::reject_then_idle_sync, pb::short_write_mid_prefix, pb::short_write_mid_payload, pb::large_frame_ge_64k, pb::failed_encode_partial_bytes, pb::pipe_both_blocked_resolved, pb::pipe_writer_cancel, pb::err_then_sync_resume, pb::rewrap_at_boundary, pb::max_len_changed_mid_run]
+    }
+
     fn rule() -> &'static str {
         "sweeps: every uniform accept size; Pending before every byte with the write cancelled at every position then synced; every \
          (cancel write at i, cancel sync at j) pair; accept-0 and each error kind before every byte; a fault inside the resuming sync; \
